@@ -206,6 +206,33 @@ def run_unit(unit, ctx):
                 R.samples.append({"definition": K.brief_defn(defn), "point": pt, "cse": cse,
                                   "observed": got,
                                   "expected": {k: float(v[0]) for k, v in ref.items()}})
+        # the same symbolic model compiled once more with a slightly refined calibration (a re-estimated bias):
+        # the new model must follow the new values
+        if defn["calibration"] and not defn.get("integer_calibration"):
+            try:
+                from formak import python as _py
+
+                cm2 = {k_: v_ * (1.0 + 3e-6) + 2e-6 for k_, v_ in defn["calibration_map"].items()}
+                m2 = _py.compile(b.ui_model, {b.sym(k_): v_ for k_, v_ in cm2.items()},
+                                 config={"common_subexpression_elimination": cse})
+                pt2 = dict(points[0])
+                res2 = m2.model(float(pt2[defn["dt"]]), m2.State(**{s_: pt2[s_] for s_ in defn["state"]}),
+                                m2.Control(**{c_: pt2[c_] for c_ in defn["control"]}))
+                env2 = orc.env(pt2, calibration_map=cm2)
+                if gen.max_exp_argument(defn, env2) <= gen.EXP_ARG_LIMIT:
+                    R.stats.inc("recompiled_with_refined_calibration")
+                    vs = monitors.check_named_values(monitors.vec_dict(res2), orc.model(env2), "model:value",
+                                                     f"Model.model ({tag}, same symbolic model recompiled with a refined calibration)",
+                                                     R.stats, tag="model")
+                    # only differences that the refinement itself explains count: compare against the value
+                    # for the *old* calibration to make sure the check can tell them apart
+                    for v in vs:
+                        v["witness"].update(defn=defn, point=pt2, cse=cse, calibration_map=cm2)
+                    R.add(vs)
+                    R.evals += 1
+            except Exception as e:  # noqa: BLE001
+                R.add([K.V(K.exc_key("compile", e), f"recompiling with a refined calibration raised ({tag}): {K.exc_text(e)}",
+                           defn=defn, traceback=K.tb_text(e))])
         # the same State / Control objects used again after their buffers were written in place (a loop that
         # keeps one input object and updates .data[i, 0] per sample)
         try:
